@@ -38,7 +38,9 @@ META = dict(
     'cost), tails 1 and 2, and two successive calls with different tails on '
     'one fitted model.',
     bounds=dict(quick='(n_pre, n_test, cooldown) in {(3,1,1), (4,2,1)}; 3 '
-                'cost layouts; tails sequences (1), (2), (1,2), (2,1)',
+                'cost layouts; tails sequences (1), (2), (1,2), (2,1); refit of '
+                'one object on the other cost scenario; integer-dtype frames '
+                'in the conformance job',
                 thorough='adds (3,2,1), (5,2,2), (6,3,1)'),
     outside='pre-period cells are concrete (listed series; random frames '
     'only in the conformance job); n_pre > 6; more than 4 analysed days; '
@@ -80,7 +82,7 @@ def _pre_costs(n, T, layout):
 
 
 def effect_job(name, n, T, C, metric, layout, tails_seq, twin=False,
-               max_s=800, level_c=0.8):
+               max_s=800, level_c=0.8, refit=False):
   symx.patch_pandas()
   from matched_markets.methodology import common_classes as CC
   from matched_markets.methodology import tbr as TBRmod
@@ -112,6 +114,21 @@ def effect_job(name, n, T, C, metric, layout, tails_seq, twin=False,
     try:
       m = IR.TBRiROAS(use_cooldown=True)
       df = c07.frame(cells, cost, n, T, C, cost_pre=pre, cost_ctl=ctl)
+      if refit:
+        # the same object was fitted before on a frame of the other cost
+        # scenario and asked for a report
+        other = 'variable' if layout == 'fixed' else 'fixed'
+        pre0, ctl0 = _pre_costs(n, T, other)
+        ctl0 = {d: 1.5 for d in ctl0} if ctl0 else None
+        cells0 = {k: (v if not isinstance(v, SNum) else 7.0 + 0.5 * k[1] + (
+            2.0 if k[0] == 'y' else 0.0) * k[1]) for k, v in cells.items()}
+        m.fit(c07.frame(cells0, {d: 2.0 for d in cost}, n, T, C,
+                        cost_pre=pre0, cost_ctl=ctl0))
+        try:
+          m.estimate_pointwise_and_cumulative_effect('tbr_cost', level=0.8,
+                                                     tails=2)
+        except ValueError:
+          pass
       m.fit(df)
       outs = []
       for tails in tails_seq:
@@ -378,6 +395,33 @@ def concrete_effect(n, T, C, metric, tails_seq, cells, cost, pre, ctl, level,
   return sorted(set(bad))
 
 
+def scale_shrinks(n, T, C, metric, cells, cost, pre, ctl):
+  """Qualitative input class of the known finding: does the cumulative
+  posterior scale of the metric shrink between two analysed days?"""
+  days = T + C
+  if metric == 'tbr_response':
+    treat = [cells['y', d] for d in range(n + days)]
+    ctrl = [cells['x', d] for d in range(n + days)]
+  else:
+    treat = list(pre[1] if pre else [0.0] * n) + [cost.get(d, 0.0) for d in
+                                                  range(n, n + days)]
+    ctrl = list(pre[0] if pre else [0.0] * n) + [(ctl or {}).get(d, 0.0)
+                                                 for d in range(n, n + days)]
+  x, y = np.array(ctrl[:n], float), np.array(treat[:n], float)
+  if np.ptp(x) == 0:
+    return False
+  xb = x.mean()
+  sxx = ((x - xb) ** 2).sum()
+  prev = 0.0
+  for t in range(1, days + 1):
+    mt = float(np.mean(ctrl[n:n + t]))
+    f = t + t * t * (1.0 / n + (mt - xb) ** 2 / sxx)
+    if f < prev * (1 - 1e-12):
+      return True
+    prev = f
+  return False
+
+
 def conformance_job(name, seed=0):
   js = framework.JobStats(name)
   k = 0
@@ -398,7 +442,14 @@ def conformance_job(name, seed=0):
           pre = ([1.0 + 0.1 * d + 0.05 * float(rng.normal()) for d in
                   range(n)], [2.0 + 0.2 * d + 0.05 * float(rng.normal())
                               for d in range(n)])
-          ctl = {d: 1.0 + 0.1 * d for d in range(n, n + T)}
+          ctl = {d: 1.0 + 0.1 * d for d in range(n, n + T + C)}
+        if layout == 'variable' and metric == 'tbr_response':
+          # integer-valued columns (int64 dtype in the caller's frame)
+          cells = {k: int(round(10 * v)) for k, v in cells.items()}
+          cost = {d: int(round(10 * v)) for d, v in cost.items()}
+          pre = ([int(round(10 * v)) for v in pre[0]], [int(round(10 * v))
+                                                        for v in pre[1]])
+          ctl = {d: int(round(10 * v)) for d, v in ctl.items()}
         for ts in ((1,), (2,), (1, 2)):
           bad = concrete_effect(n, T, C, metric, ts, cells, cost, pre, ctl,
                                 0.8)
@@ -445,6 +496,11 @@ def jobs(tier, seed):
                                       level_c=[0.8, 0.9, 0.95][len(out) % 3],
                                       max_s=800 if tier == 'quick' else 3000),
                           timeout_s=900 if tier == 'quick' else 3300))
+  for layout in ('fixed', 'variable'):
+    name = 'tbr_cost-%s-refit-n3-T1-C1' % layout
+    out.append(dict(func='effect_job', name=name, weight=40, kwargs=dict(
+        name=name, n=3, T=1, C=1, metric='tbr_cost', layout=layout,
+        tails_seq=(2,), refit=True)))
   out.append(dict(func='conformance_job', name='conformance', kwargs=dict(
       name='conformance', seed=seed)))
   out.append(dict(func='effect_job', name='twin', kwargs=dict(
@@ -474,8 +530,11 @@ def replay(case):
     return dict(violates=False, detail='report well-formed on the witness')
   if bad[0].startswith('raises:') or bad[0].startswith('ordering'):
     # qualitative class of the input: does the cumulative posterior scale
-    # shrink between analysed days?
-    key = 'C18:%s:report-raises-or-disordered' % case['metric']
+    # shrink between analysed days?  (the known finding needs that)
+    shrinks = scale_shrinks(case['n'], case['T'], case['C'], case['metric'],
+                            cells, cost, pre, ctl)
+    key = 'C18:%s:report-raises-or-disordered' % case['metric'] if shrinks \
+        else 'C18:%s:report-raises-with-monotone-scale' % case['metric']
     return dict(violates=True, key=key, detail='%s on metric %s tails %s: %s'
                 % (bad, case['metric'], case['tails_seq'], {
                     k: round(v, 3) for k, v in list(cells.items())[:12]}))
